@@ -24,7 +24,7 @@ func TestVerif_Sequential(t *testing.T) {
 	r := vkit.Start(t, "C09", "sequential", "exploration", rule)
 	r.Require("revision_checks", "commits", "aborts")
 	r.ParallelCases(vkit.N(3000, 150000), vkit.Workers(), func(i int) {
-		dbsim.RunPlain(r, i, dbsim.Opts{Tables: 3, Txns: 16, MaxOps: 12, ProbesPerIndex: 1, AbortPct: 25,
+		dbsim.RunPlain(r, i, dbsim.Opts{Tables: 3, Txns: 16, MaxOps: 12, ProbesPerIndex: 1, AbortPct: 25, Remote: i%4 == 0,
 			Report: map[string]bool{"rev": true}},
 			func(s *dbsim.Sim) bool { return s.RevChecks() >= 5 })
 	})
